@@ -97,15 +97,21 @@ impl Track {
 	}
 
 	pub fn should_be_removed(&self) -> bool {
-		if self
-			.sub_tracks
-			.iter()
-			.any(|(_, sub_track)| !sub_track.should_be_removed())
+		// a child track that hasn't been picked up yet is alive, too
+		if self.sub_tracks.has_pending()
+			|| self
+				.sub_tracks
+				.iter()
+				.any(|(_, sub_track)| !sub_track.should_be_removed())
 		{
 			return false;
 		}
 		if self.persist_until_sounds_finish {
-			self.shared().is_marked_for_removal() && self.sounds.is_empty()
+			// a sound that was played just before the handle was dropped
+			// may still be waiting to be picked up
+			self.shared().is_marked_for_removal()
+				&& self.sounds.is_empty()
+				&& !self.sounds.has_pending()
 		} else {
 			self.shared().is_marked_for_removal()
 		}
